@@ -72,9 +72,9 @@ prop("C11", "other", _GENERIC + "Discharged: the mechanical lock-discipline obli
      "their version under the lock); version retention on the real functions in a symbolic heap: _prune_versions_unlocked (only the "
      "old end is removed, never the newest version nor anything at or after the oldest version an open reader holds, for every answer "
      "of the policy callable; terminates), _commit_version_unlocked (modularly over the pruning contract), _get_next_version_id "
-     "(greater than every retained id) and the lemma that a pinned version keeps its shifted position. Snapshot isolation of reads, "
-     "the reader registry and immutability are bounded.",
-     assumptions=["A-policy: the pruning policy is an arbitrary callable returning a truth value and not touching the zone"])
+     "(greater than every retained id), _end_read (unregisters exactly that reader and prunes at once, as far as the policy "
+     "allows) and the lemma that a pinned version keeps its shifted position. Snapshot isolation of reads and immutability are bounded.",
+     assumptions=["A-policy: the pruning policy is an arbitrary pure callable (an uninterpreted predicate of the number of retained versions and the candidate)"])
 prop("C12", "other", _GENERIC + "Discharged: the mechanical lock-discipline obligations (every access of the writer/reader state under "
      "_version_lock or in *_unlocked methods whose call sites hold it; no blocking call under the lock); the hand-over step on the "
      "real functions: _maybe_wakeup_one_waiter_unlocked and _end_write_unlocked wake exactly the head of the waiter queue, make its "
@@ -103,8 +103,9 @@ prop("C16", "other", _GENERIC + "Proved: the lifetime budget (_compute_timeout) 
      "the resolution state machine on the real code: next_nameserver (single TCP retry on the same server after truncation, list "
      "order, re-arming with exponential back-off capped at 2 s, NoNameservers exactly when nothing is left) and query_result (which "
      "outcomes end the resolution, which remove the server for good, which arm the TCP retry, NXDOMAIN recording, caching under "
-     "(qname, rdtype, rdclass) through the proved Cache.put contract). The composition into whole resolutions, search lists and "
-     "CNAME chaining are bounded.",
+     "(qname, rdtype, rdclass) through the proved Cache.put contract); _get_qnames_to_try for search lists of 0, 1 and 2 "
+     "suffixes (absolute form first exactly when the name has more labels than ndots, 0 allowed, else last; suffixed names in "
+     "list order). The composition into whole resolutions and CNAME chaining are bounded.",
      assumptions=["A-float: clock readings and timeouts are reals",
                   "A-abs: nameserver objects, Answer construction and rcode text are abstracted by assumed contracts (listed in the trusted base)"])
 prop("C17", "other", _GENERIC + "Discharged: the mechanical lock-discipline obligations of the cache classes (linearizability by one "
@@ -120,6 +121,10 @@ prop("C18", "other", _GENERIC + "Proved: stream framing loops _net_read, _net_wr
      "socket contract (any fragmentation into chunks and would-block events yields exactly the requested octets in order, or "
      "EOFError/Timeout, never a short result). is_response, source matching and the receive loops are bounded.",
      assumptions=["A-ext: socket.recv/send and the async backend recv behave as their stated contracts"])
-prop("C19", "other", _GENERIC + "Proved: _Node.search_in_node (binary search, termination). Tree restructuring and copy-on-write are bounded.")
+prop("C19", "other", _GENERIC + "Proved: _Node.search_in_node (binary search, termination); insert_nonfull on a leaf (replace in place / "
+     "insert at the sorted position, strictly sorted and within the occupancy bound afterwards, modular over the search contract); "
+     "split of a full leaf (two minimal halves and the median, concatenation preserved, same creator). Internal-node restructuring, "
+     "copy-on-write isolation, cursors and whole histories are bounded (lists of child nodes inside heap objects are outside the "
+     "engine's heap model).")
 prop("C20", "other", _GENERIC + "Proved: the node flag predicates read exactly their own bit. The invariant 'flags and delegation index "
      "are a function of content' and bounds() are decided by the bounded stand-in (recomputation from content after every commit).")
